@@ -52,7 +52,7 @@ func HashNameToAllPrefixFwThreads(name enc.Name) []bool {
 	}
 
 	prefixHash := name.PrefixHash()
-	for i := 1; i < len(prefixHash); i++ {
+	for i := 0; i < len(prefixHash); i++ {
 		thread := int(prefixHash[i] % uint64(len(Threads)))
 		threads[thread] = true
 	}
